@@ -82,7 +82,7 @@ class Dmn(Family):
             steps.append(st("kick", [cur_kick[qq]]))
         for q in range(nq):
             steps.append(st("queue_state", [q]))
-        return [VL(cfg), VL(steps)]
+        return [VL(cfg), VL(steps + [st("teardown")])]
 
 
     # ---- memory table / ring configuration histories (C13, C14) ----
@@ -319,7 +319,7 @@ class Dmn(Family):
         for c in sorted(set(calls.values())):
             steps.append(st("read_call", [c]))
         steps.append(st("panics"))
-        return [VL(cfg), VL(steps)]
+        return [VL(cfg), VL(steps + [st("teardown")])]
 
     # ---- adversarial field values (C05): well-typed messages whose 64-bit fields sit on the boundaries ----
     B64 = [0, 1, 0xfff, 0x1000, 0x1001, 2**31, 2**32 - 1, 2**32, 2**48, 2**63 - 1, 2**63, 2**64 - 0x2000, 2**64 - 0x1000,
@@ -368,7 +368,7 @@ class Dmn(Family):
         steps += [st("panics"), st("regions"), st("backend_log")]
         for qq in range(nq):
             steps.append(st("queue_state", [qq]))
-        return [VL(cfg), VL(steps)]
+        return [VL(cfg), VL(steps + [st("teardown")])]
 
     # ---- the backend-request channel inherits the negotiated settings (C14) ----
     def beq_history(self, rng):
@@ -388,7 +388,7 @@ class Dmn(Family):
         if rng.chance(1, 4):
             order = [st("proxy_probe", [0])] + order
         steps += order + [st("proxy_probe", [rng.below(2)]), st("panics")]
-        return [VL(cfg), VL(steps)]
+        return [VL(cfg), VL(steps + [st("teardown")])]
 
     def routing_case(self, rng, nq, masks, kind):
         feat = PFB
@@ -409,7 +409,7 @@ class Dmn(Family):
             t = rng.below(nth)
             steps.append(st("add_listener", [t, lid]))
             steps.append(st("fire_listener", [t, lid]))
-        return [VL(cfg), VL(steps)]
+        return [VL(cfg), VL(steps + [st("teardown")])]
 
     def generate(self, rng, tier):
         n = 400 if tier == "quick" else 4000
